@@ -182,6 +182,71 @@ Theorem C12_records_well_formed : forall cfg ops,
 Proof. intros cfg ops. exact (exec_wf cfg ops (state_init cfg) (init_wf cfg)). Qed.
 Print Assumptions C12_records_well_formed.
 
+(* ================= collects during which a reporter raises =================
+   EXACTLY the state collect leaves behind when it raises (`raised` lists the four ways: validation at the first
+   collect - nothing appended; model reporter number j - reporters 0..j-1 appended, j.. not, nothing else touched;
+   an agent reporter - model vars and _collection_steps complete, no agent records; an agent-type key/reporter -
+   agent records done, the classes before the failing one recorded). *)
+Theorem C12_collect_raises_state : forall cfg w d d' e,
+  NoDup (map fst (c_mreps cfg)) -> collect cfg w d = (d', Err e) -> raised cfg w d e d'.
+Proof. exact collect_raises_state. Qed.
+Print Assumptions C12_collect_raises_state.
+
+(* the model-reporter loop, raising or not: exactly the first j reporters (dictionary order) get exactly one value,
+   their direct value at that moment; j = all of them iff no reporter raised.  In particular the NEXT successful
+   collect after a raising one still appends exactly one value per model reporter. *)
+Theorem C12_model_reporter_loop_exact : forall w rs, NoDup (map fst rs) -> forall mv,
+  exists j, (j <= length rs)%nat /\
+    fst (collect_mvars w rs mv) = mvars_prefix w rs j mv /\
+    (forall p, In p (firstn j rs) -> res_ok (eval_mrep w (snd p)) = true) /\
+    match snd (collect_mvars w rs mv) with
+    | Ok _ => j = length rs
+    | Err e => exists p, nth_error rs j = Some p /\ eval_mrep w (snd p) = Err e
+    end.
+Proof. exact collect_mvars_spec. Qed.
+Print Assumptions C12_model_reporter_loop_exact.
+
+(* whatever way collect raises: tables untouched, agent / agent-type records of every other step untouched *)
+Theorem C12_collect_raises_keeps_rest : forall cfg w d d' e s,
+  NoDup (map fst (c_mreps cfg)) -> collect cfg w d = (d', Err e) ->
+  d_tables d' = d_tables d /\
+  (s <> w_steps w -> aget s (d_arecs d') = aget s (d_arecs d) /\ aget s (d_trecs d') = aget s (d_trecs d)).
+Proof.
+  intros cfg w d d' e s Hnd H. split.
+  - pose proof (collect_tables cfg w d) as Ht. rewrite H in Ht. exact Ht.
+  - exact (raised_other_steps cfg w d e d' s (collect_raises_state cfg w d d' e Hnd H)).
+Qed.
+Print Assumptions C12_collect_raises_keeps_rest.
+
+(* FINDING CANDIDATE (key C18/datacollector/collect-raising-reporter): when model reporter number j >= 1 raises,
+   the first reporter's list has grown by one and reporter j's has not - the model_vars lists are ragged, positions no
+   longer identify a collect, and (Example below) get_model_vars_dataframe raises ValueError ever after *)
+Theorem C12_raising_reporter_leaves_ragged_model_vars : forall cfg w d j p n0 r0,
+  NoDup (map fst (c_mreps cfg)) ->
+  nth_error (c_mreps cfg) 0 = Some (n0, r0) -> nth_error (c_mreps cfg) j = Some p -> (0 < j)%nat ->
+  forall l0 lj, aget n0 (d_mvars d) = Some l0 -> aget (fst p) (d_mvars d) = Some lj ->
+  aget n0 (mvars_prefix w (c_mreps cfg) j (d_mvars d)) = Some (l0 ++ [mval_at w r0]) /\
+  aget (fst p) (mvars_prefix w (c_mreps cfg) j (d_mvars d)) = Some lj.
+Proof. exact raised_ragged. Qed.
+Print Assumptions C12_raising_reporter_leaves_ragged_model_vars.
+
+(* non-vacuity: reporter 1 reads model.m0 through a bound method (not validated); m0 is deleted before the second
+   collect: that collect raises AttributeError after appending to reporter 0 only; the third collect (m0 set again)
+   appends one value to each, the lists stay 3 vs 2 long and the model frame raises ValueError *)
+Definition ex_raise_cfg : config :=
+  {| c_mreps := [(0, MRFun false FSteps); (1, MRMethod (FAttr 0))]; c_areps := []; c_treps := []; c_tables := [] |}.
+Definition ex_raise_ops : list op := [SetAttr 0 5; Collect; DelAttr 0; Step; Collect; SetAttr 0 7; Step; Collect].
+Example C12_raise_example :
+  NoDup (map fst (c_mreps ex_raise_cfg)) /\
+  run_ops ex_raise_cfg (state_init ex_raise_cfg) [SetAttr 0 5; Collect; DelAttr 0; Step; Collect]
+    = [[0; 2; 0; 0; 1; 0; 0; 0; 0]; [0; 2; 0; 1; 1; 0; 1; 1; 1; 5; 0; 0; 0]; [0; 2; 0; 1; 1; 0; 1; 1; 1; 5; 0; 0; 0];
+       [0; 2; 0; 1; 1; 0; 1; 1; 1; 5; 0; 0; 0]; [-1; 1; 2; 0; 2; 1; 0; 1; 1; 1; 1; 1; 5; 0; 0; 0]] /\
+  d_mvars (s_d (exec ex_raise_cfg (state_init ex_raise_cfg) ex_raise_ops))
+    = [(0, [SInt 0; SInt 1; SInt 2]); (1, [SInt 5; SInt 7])] /\
+  model_frame ex_raise_cfg (s_d (exec ex_raise_cfg (state_init ex_raise_cfg) ex_raise_ops)) = Err E_VALUE /\
+  d_csteps (s_d (exec ex_raise_cfg (state_init ex_raise_cfg) ex_raise_ops)) = [0; 2].
+Proof. split; [repeat constructor; simpl; intuition congruence|]. repeat split; vm_compute; reflexivity. Qed.
+
 (* ================= code-level T1: the same statements about the code TRANSLATED from the working tree =================
    gen_* are regenerated from mesa/datacollection.py on every run (harness/tables/datacollect_batch_code.py). *)
 
